@@ -65,7 +65,7 @@ def gen(rng, tier, no, wide=False):
         for k, (nm, cat) in enumerate(pairs):
             ev.append({"ph": "X", "cat": cat, "name": nm, "pid": host["pid"], "tid": host["tid"], "ts": t0 + 3 * k, "dur": 2})
     case["params"] = {"ops": ops, "mp": rng.random() < 0.6, "order": rng.sample(range(n), n),
-                      "probe": (no % (4 if tier == "quick" else 3)) == 0, "mp_symbols": rng.random() < 0.2}
+                      "probe": (no % (4 if tier == "quick" else 3)) == 0, "mp_symbols": rng.random() < 0.2, "direct_order": rng.random() < 0.4}
     return case
 
 
@@ -134,7 +134,13 @@ def observe(case):
         try:
             t = T.Trace(trace_files=dict(files), trace_dir=os.path.dirname(files[ranks[0]]))
             t.symbol_table._verif_global = True
-            t.parse_traces(use_multiprocessing=p["mp"])
+            if p.get("direct_order"):
+                # the ranks handed to the parser in the order of the case's permutation (parse order is the caller's choice)
+                order = [ranks[i] for i in p["order"]]
+                t.parse_multiple_ranks(order, p["mp"] and len(order) > 1, True)
+                t.is_parsed = True
+            else:
+                t.parse_traces(use_multiprocessing=p["mp"])
         finally:
             TraceSymbolTable.add_symbols = orig_add
             T.parse_trace_file = orig_parse
